@@ -122,13 +122,13 @@ namespace nmtools::index
             auto normalize_roll_index = [](nm_index_t index, const auto axis) -> nm_index_t
             #endif
             {
-                if (index < 0) {
-                    return axis + index;
-                } else if ((nm_index_t)index >= (nm_index_t)axis) {
-                    return index - axis;
-                } else {
+                // the shift may exceed the extent (several wrap arounds)
+                auto extent = (nm_index_t)axis;
+                if (extent <= 0) {
                     return index;
                 }
+                auto wrapped = index % extent;
+                return (wrapped < 0 ? wrapped + extent : wrapped);
             };
 
             if constexpr (is_none_v<axis_t>) {
